@@ -348,12 +348,18 @@ class FIXNewOrderSingle:
             }
 
         elif fix_msg_type == FMsg.ORDERCANCELREJECT:  # '9'
+            finished = {None: None}
             status_transitions = {
+                FOrdStatus.FILLED: finished,
+                FOrdStatus.CANCELED: finished,
+                FOrdStatus.REJECTED: finished,
+                FOrdStatus.EXPIRED: finished,
+                FOrdStatus.CREATED: {None: FIXError},
                 None: {
                     FOrdStatus.CREATED: FIXError,
                     FOrdStatus.ACCEPTED_FOR_BIDDING: FIXError,
                     None: True,
-                }
+                },
             }
         elif (
             fix_msg_type == FMsg.ORDERCANCELREQUEST
